@@ -25,30 +25,30 @@ namespace Qx.C19
 
 /-! ## Success means identical bytes -/
 
-/-- **Success ⇒ the device holds identical bytes, whatever the channel does** (offer carried the MD5; receiving device
-takes what it is given).  For every file, block sizes, announced size — even a wrong or absent one — and EVERY
-channel history, including altered blocks, requests forged in the sender's name, lost stanzas and timers firing: if the
-receiving job reports success, its output device holds exactly the sender's bytes, provided MD5 does not collide
-between what the hash was fed and the file (`hcoll`).  (For devices that may refuse data see
-`success_implies_identical_bytes_by_sequence_partial`, `socks_success_implies_identical_bytes` and
-`short_write_ends_with_access_error`: a forged `<open/>` can revive a job that ended with `FileAccessError`, which is
-why this theorem does not quantify over devices.) -/
-theorem success_implies_identical_bytes (H : List UInt8 → List UInt8) (bsS bsR size : Nat) (data : List UInt8)
+/-- **Success ⇒ the device holds identical bytes, whatever the channel and the device do** (offer carried the MD5).  For
+every file, block sizes, announced size — even a wrong or absent one —, EVERY receiving device (takes everything, at most
+k bytes per write, runs full, fails) and EVERY channel history, including altered blocks, requests forged in the
+sender's name, lost stanzas and timers firing: if the receiving job reports success, its output device holds exactly the
+sender's bytes, provided MD5 does not collide between what the hash was fed and the file (`hcoll`).  (A device that
+refuses data ends the job with `FileAccessError`, and since repo commit 31a1bb4 — `<open/>` only in `StartState` —
+nothing can put a finished job back into `TransferState`.) -/
+theorem success_implies_identical_bytes (H : List UInt8 → List UInt8) (dev : Dev) (bsS bsR size : Nat) (data : List UInt8)
     (ops : List Op)
-    (hcoll : H (run H (init bsS bsR size (some (H data)) data) ops).1.r.fed = H data →
-             (run H (init bsS bsR size (some (H data)) data) ops).1.r.fed = data) :
-    (run H (init bsS bsR size (some (H data)) data) ops).1.r.success →
-    (run H (init bsS bsR size (some (H data)) data) ops).1.r.acc = data := by
+    (hcoll : H (run H (initDev dev bsS bsR size (some (H data)) data) ops).1.r.fed = H data →
+             (run H (initDev dev bsS bsR size (some (H data)) data) ops).1.r.fed = data) :
+    (run H (initDev dev bsS bsR size (some (H data)) data) ops).1.r.success →
+    (run H (initDev dev bsS bsR size (some (H data)) data) ops).1.r.acc = data := by
   intro hs
-  have hc := run_checked H ops _ (checked_init H .unlimited bsS bsR size (some (H data)) data)
+  have hc := run_checked H ops _ (checked_init H dev bsS bsR size (some (H data)) data)
   have hck := (checkFails_false_iff H _).1 (hc hs.1 hs.2)
   have hh := run_r_inv H (fun r => r.hash = some (H data))
     (by intro r p h; unfold recv; repeat (first | exact h | split | simpa using h)) (fun r h => by simpa using h) ops
-    (init bsS bsR size (some (H data)) data) rfl
+    (initDev dev bsS bsR size (some (H data)) data) rfl
   have hfed := hcoll (hck.2 _ hh)
-  have hafu := run_r_inv H AFU (recv_AFU H) (fun r h => by simpa [AFU] using h) ops
-    (init bsS bsR size (some (H data)) data) ⟨rfl, rfl⟩
-  rw [hafu.2]; exact hfed
+  rcases run_r_inv H AS (recv_AS H) (fun r h => terminate_AS r _ h) ops
+    (initDev dev bsS bsR size (some (H data)) data) (Or.inl rfl) with h | ⟨_, he⟩
+  · rw [h]; exact hfed
+  · rw [hs.2] at he; cases he
 
 /-- **accept(filePath): success ⇒ the FILE ON DISK is exactly the sent bytes, whatever the destination path held
 before** (none, shorter, longer, same length).  `initPath acceptOpenMode previous …` receives into a healthy file that
@@ -71,7 +71,7 @@ theorem accept_path_success_implies_file_is_sent_bytes (H : List UInt8 → List 
     (init bsS bsR size (some (H data)) data) rfl
   unfold Recv.disk
   rw [hold, List.drop_nil, List.append_nil]
-  exact success_implies_identical_bytes H bsS bsR size data ops hcoll hs
+  exact success_implies_identical_bytes H .unlimited bsS bsR size data ops hcoll hs
 
 /-- **A write the device does not take completely ends the receiving job with `FileAccessError` at once**: for every
 job in `TransferState`, every device and block — either the device took the whole block (content, counter and hash
@@ -314,7 +314,8 @@ theorem altered_block_never_success (H : List UInt8 → List UInt8) (bsS bsR siz
              (run H (init bsS bsR size (some (H data)) data) (honest (j + 1) ++ .flip bit :: cont)).1.r.fed = data) :
     ¬ (run H (init bsS bsR size (some (H data)) data) (honest (j + 1) ++ .flip bit :: cont)).1.r.success := by
   intro hs
-  have hid := success_implies_identical_bytes H bsS bsR size data _ hcoll hs
+  have hid := success_implies_identical_bytes H .unlimited bsS bsR size data _ hcoll hs
+  change (run H (init bsS bsR size (some (H data)) data) (honest (j + 1) ++ .flip bit :: cont)).1.r.acc = data at hid
   rw [run_append, honest_prefix H bsS bsR size (some (H data)) data hb hle j hblk] at hid
   have hpre : ∃ t, (run H (step H (atBlock bsS bsR size (some (H data)) data j) (.flip bit)).1 cont).1.r.acc =
       (data.take (j * bsS) ++ flipBit ((data.drop (j * bsS)).take bsS) bit) ++ t :=
